@@ -50,9 +50,10 @@ func c09Step(x *engine.Exec) []engine.Failure {
 	}
 	prev, next := x.Prev.Snap(), x.Next.Snap()
 	var out []engine.Failure
-	if x.Op.K != world.KBlock && x.Op.K != world.KGovParams && !prev.Params.LastTakeRateClaimTime.Equal(next.Params.LastTakeRateClaimTime) {
+	if x.Op.K != world.KBlock && x.Op.K != world.KGovParams && !prev.Params.LastTakeRateClaimTime.IsZero() && !prev.Params.LastTakeRateClaimTime.Equal(next.Params.LastTakeRateClaimTime) {
 		// the clock is one module-wide value: it advances by whole intervals inside the end-of-block deduction (or is set by a
-		// governance params update); nothing else may move it, or assets are not charged for intervals that did elapse
+		// governance params update, or started from the unset value); nothing else may move it, or assets are not charged for
+		// intervals that did elapse
 		out = append(out, fail("clock", "moved-outside-deduction", "%s moved the take-rate clock %s -> %s", x.Op.String(), prev.Params.LastTakeRateClaimTime, next.Params.LastTakeRateClaimTime))
 	}
 	if x.Op.K == world.KGovUpdate {
